@@ -140,6 +140,9 @@ def run_session(cfg, csv_path, symbols, data_source=None, probe_signals=False, h
     kw = {}
     if cfg['rebalance'] == 'weekly':
         kw['rebalance_weekday'] = cfg['weekday']
+    if cfg.get('portfolio_id'):
+        kw['portfolio_id'] = cfg['portfolio_id']
+        kw['account_name'] = 'acct-' + cfg['portfolio_id']
     if cfg['long_only']:
         kw['cash_buffer_percentage'] = cfg['buffer']
     else:
